@@ -25,7 +25,9 @@ NUMS = [0, 1, -1, 2, 10, -10, 3, 100, -100, 2 ** 53, -2 ** 53, 2 ** 40 + 1,
         decimal.Decimal('-7.75'), 1.5, -2.25, 1e300, -1e-300,
         # neighbours in binary64 (differ in the last mantissa bit), both signs
         2 ** 53 - 1, 2 ** 53 - 2, -(2 ** 53 - 1), -(2 ** 53 - 2), 1.0000000000000002, -1.0000000000000002, -1.0,
-        -1.0000000000000004]
+        -1.0000000000000004,
+        # huge magnitudes of both signs (the first hex digit of the key changes, 0 included)
+        -1e300, -1e200, -4e231, 1e200, -(2 ** 800), 2 ** 800, decimal.Decimal('-1E+250'), -1.7976931348623157e308, 5e-324, -5e-324]
 
 
 def gen_rows(rng, n, cols):
